@@ -6,6 +6,7 @@ package srvh
 import (
 	"encoding/hex"
 	"fmt"
+	"net"
 	"strconv"
 	"strings"
 	"sync"
@@ -30,7 +31,7 @@ func NowNs() int64 { return int64(time.Since(epoch)) + 1_000_000_000_000 }
 
 // Step is one scripted network event on the server's conn.
 type Step struct {
-	K  string `json:"k"`            // "c" chunk | "t" the armed deadline fires | "e" EOF | "s" real sleep
+	K  string `json:"k"`            // "c" chunk | "t" the armed deadline fires | "e" EOF | "s" real pause | "g" wait for the gate
 	B  []byte `json:"-"`            // chunk bytes (K=="c")
 	N  int    `json:"n,omitempty"`  // chunk length (for replay files; B is rebuilt from the recipe)
 	Ms int    `json:"ms,omitempty"` // K=="s"
@@ -48,14 +49,31 @@ type Conn struct {
 	firstRead chan struct{}
 	once      sync.Once
 
+	// Gate: a "g" step announces itself on AtGate and blocks until Gate is closed (used to
+	// release the last bytes of several conns at the same instant).
+	Gate   chan struct{}
+	AtGate chan struct{}
+
+	// Log: what every Read of the endpoint returned, with the harness clock at that moment —
+	// exactly this goes to the model.
+	Log []LogEv
+
 	LastReadTimeout bool          // the most recent Read returned a timeout
 	LastTimeoutOff  time.Duration // the deadline that was armed then, relative to the conn's creation
 	TimeoutsFired   int
 	FiredUnarmed    bool // a "t" step met no armed deadline (skipped)
 }
 
+// LogEv is one Read result as seen by the endpoint.
+type LogEv struct {
+	K  string // "r" data | "t" timeout | "e" EOF / other error
+	B  []byte
+	At int64 // NowNs()
+}
+
 func NewConn(steps []Step) *Conn {
-	return &Conn{ScriptConn: vlib.NewScriptConn(), steps: steps, firstRead: make(chan struct{})}
+	return &Conn{ScriptConn: vlib.NewScriptConn(), steps: append([]Step(nil), steps...), firstRead: make(chan struct{}),
+		AtGate: make(chan struct{}, 1)}
 }
 
 func (c *Conn) SetDeadline(t time.Time) error {
@@ -72,9 +90,20 @@ func (c *Conn) SetReadDeadline(t time.Time) error {
 	return c.ScriptConn.SetReadDeadline(t)
 }
 
-func (c *Conn) noteRead(err error) {
+func (c *Conn) noteRead(b []byte, n int, err error) {
 	c.mu.Lock()
 	defer c.mu.Unlock()
+	switch {
+	case err == nil:
+		c.Log = append(c.Log, LogEv{K: "r", B: append([]byte(nil), b[:n]...), At: NowNs()})
+	case err == net.ErrClosed:
+	default:
+		if _, ok := err.(vlib.TimeoutError); ok {
+			c.Log = append(c.Log, LogEv{K: "t", At: NowNs()})
+		} else {
+			c.Log = append(c.Log, LogEv{K: "e", At: NowNs()})
+		}
+	}
 	if _, ok := err.(vlib.TimeoutError); ok {
 		c.LastReadTimeout = true
 		c.LastTimeoutOff = c.rdl.Sub(c.ScriptConn.Created)
@@ -89,7 +118,7 @@ func (c *Conn) Read(b []byte) (int, error) {
 	for {
 		if c.ScriptConn.Closed() || c.ScriptConn.Pending() > 0 {
 			n, err := c.ScriptConn.Read(b)
-			c.noteRead(err)
+			c.noteRead(b, n, err)
 			return n, err
 		}
 		c.mu.Lock()
@@ -97,7 +126,7 @@ func (c *Conn) Read(b []byte) (int, error) {
 			c.mu.Unlock()
 			c.ScriptConn.FireDeadlines = true
 			n, err := c.ScriptConn.Read(b)
-			c.noteRead(err)
+			c.noteRead(b, n, err)
 			return n, err
 		}
 		st := c.steps[c.idx]
@@ -107,12 +136,36 @@ func (c *Conn) Read(b []byte) (int, error) {
 		switch st.K {
 		case "c":
 			c.ScriptConn.Feed(st.B)
+		case "g":
+			select {
+			case c.AtGate <- struct{}{}:
+			default:
+			}
+			if c.Gate != nil {
+				<-c.Gate
+			}
 		case "s":
-			time.Sleep(time.Duration(st.Ms) * time.Millisecond)
+			// a real pause; the armed deadline is honoured in real time: if it comes first the
+			// Read returns the timeout then, and the rest of the pause stays in the script
+			wake := time.Now().Add(time.Duration(st.Ms) * time.Millisecond)
+			c.mu.Lock()
+			rdl := c.rdl
+			c.mu.Unlock()
+			if !rdl.IsZero() && rdl.Before(wake) {
+				time.Sleep(time.Until(rdl))
+				c.mu.Lock()
+				c.idx--
+				c.steps[c.idx].Ms = int(wake.Sub(rdl) / time.Millisecond)
+				c.mu.Unlock()
+				err := vlib.TimeoutError{}
+				c.noteRead(nil, 0, err)
+				return 0, err
+			}
+			time.Sleep(time.Until(wake))
 		case "e":
 			c.ScriptConn.FeedEOF()
 			n, err := c.ScriptConn.Read(b)
-			c.noteRead(err)
+			c.noteRead(b, n, err)
 			return n, err
 		case "t":
 			if !armed {
@@ -122,10 +175,26 @@ func (c *Conn) Read(b []byte) (int, error) {
 				continue
 			}
 			err := vlib.TimeoutError{}
-			c.noteRead(err)
+			c.noteRead(nil, 0, err)
 			return 0, err
 		}
 	}
+}
+
+// ModelEvents renders what the endpoint's Reads returned for the model driver.
+func (c *Conn) ModelEvents(hour int64) []string {
+	c.mu.Lock()
+	defer c.mu.Unlock()
+	var evs []string
+	for _, l := range c.Log {
+		switch l.K {
+		case "r":
+			evs = append(evs, fmt.Sprintf("r:%s:%d:%d", vlib.Hex(l.B), l.At, hour))
+		default:
+			evs = append(evs, fmt.Sprintf("%s:%d:%d", l.K, l.At, hour))
+		}
+	}
+	return evs
 }
 
 // ---------------------------------------------------------------- running the real WrapConn
